@@ -77,7 +77,8 @@ def expand(acc, item, tier, seed):
                 viol(k, m)
             if changed:
                 if closed:
-                    acc.succ.add((cfgkey, TS.norm_state(after)))
+                    if TS.representable(after):
+                        acc.succ.add((cfgkey, TS.norm_state(after)))
                 else:
                     acc.count("probe_successors")
                     # read the written tag back through the real read path before undoing the probe
